@@ -129,6 +129,12 @@ def int_cmp(eng, st, meth, args):
     if meth in ("max", "min"):
         pick = cmp_("ge" if meth == "max" else "le", ea, eb)
         return [(True, IntV(a.ty, ITE(pick, ea, eb)))]
+    if meth == "clamp" and len(args) == 3:
+        c = deref(eng, st, args[2])
+        ec = c.e
+        bad = cmp_("gt", eb, ec)
+        val = IntV(a.ty, ITE(cmp_("lt", ea, eb), eb, ITE(cmp_("gt", ea, ec), ec, ea)))
+        return [(bad, Panic("assertion failed: min <= max (clamp)")), (NOT(bad), val)]
     return None
 
 
